@@ -123,6 +123,9 @@ func (a *Act) callStatic(instr ssa.Instruction, c *ssa.CallCommon, rt types.Type
 		ct.Used = true
 		return a.contractCall(instr, callee, ct, args, k, rt)
 	}
+	if name == "sort.Sort" {
+		return a.sortCall(instr, c, args, fmt.Sprintf("%s#%d", key, k))
+	}
 	if m, ok := externModels[name]; ok {
 		return m(a, instr, rt, args)
 	}
@@ -530,6 +533,12 @@ func (a *Act) builtin(instr ssa.Instruction, b *ssa.Builtin, c *ssa.CallCommon, 
 		return Val{}
 	case "print", "println":
 		return Val{}
+	case "ssa:wrapnilchk":
+		// wrapper methods: the receiver pointer must not be nil
+		if args[0].Loc == nil {
+			a.safe("nil", "receiver", not(app("=", args[0].Term, "0")), "nil receiver in method wrapper", instr.Pos())
+		}
+		return args[0]
 	case "min", "max":
 		if len(args) == 2 && args[0].Sort == SortInt {
 			op := "<="
@@ -778,3 +787,88 @@ func (a *Act) recvHook(x *ssa.UnOp, ch, v Val) {
 type externModel func(a *Act, instr ssa.Instruction, rt types.Type, args []Val) Val
 
 var externModels = map[string]externModel{}
+
+// sortCall models sort.Sort(x): the final state is reachable by a finite sequence of
+// x.Swap(i, j) calls with 0 <= i, j < x.Len() (trusted from the documentation of package sort).
+// Every "sort LABEL invariant" holds before the call, is preserved by an arbitrary Swap from
+// an arbitrary state satisfying the invariants (obligations), and is therefore assumed afterwards.
+// Less and Swap must be panic-free for all indices in range (obligations from inlining them).
+func (a *Act) sortCall(instr ssa.Instruction, c *ssa.CallCommon, args []Val, label string) Val {
+	vc := a.vc
+	vc.assumed["sort.Sort: permutes by calls of Swap only, with indices in [0, Len()) (package documentation)"] = true
+	var spec *SortSpec
+	if a.contract != nil && a.contract.Sorts != nil {
+		spec = a.contract.Sorts[label]
+	}
+	mi, ok := c.Args[0].(*ssa.MakeInterface)
+	if spec == nil || !ok {
+		vc.note("sort.Sort without a sort specification: all memory havocked")
+		a.havocAll(a.cur)
+		return Val{}
+	}
+	recv := a.val(mi.X)
+	rt := mi.X.Type()
+	find := func(name string) *ssa.Function {
+		if sel := a.fn.Prog.MethodSets.MethodSet(rt).Lookup(a.fn.Pkg.Pkg, name); sel != nil {
+			return a.fn.Prog.MethodValue(sel)
+		}
+		return nil
+	}
+	fLen, fLess, fSwap := find("Len"), find("Less"), find("Swap")
+	if fLen == nil || fLess == nil || fSwap == nil {
+		a.unsup("sort.Sort on %s: methods not found", rt)
+		return Val{}
+	}
+	blk := a.curBlk
+	mkEnv := func(st *State) *Env {
+		e := a.baseEnv(st)
+		e.resolve = func(name string) (Val, bool) { return a.resolveDom(blk, name, st) }
+		return e
+	}
+	pos := a.posOf(instr.Pos())
+	// 1. invariants hold before the call
+	if !a.dry {
+		for _, inv := range spec.Invs {
+			vc.oblige("sort", fmt.Sprintf("%s%s:%s:entry", a.label, label, inv.Name), a.cur.reach, mkEnv(a.cur).evalBool(inv.Expr), inv.Src, pos)
+		}
+	}
+	// 2. arbitrary intermediate state
+	items := a.evalModItems(spec.Modifies, mkEnv(a.cur))
+	h := a.cur.clone()
+	for _, it := range items {
+		s := vc.comps[it.Comp]
+		if it.All {
+			h.mem.m[it.Comp] = vc.declareHeap("hv_"+it.Comp, s, a.alloc(h))
+			continue
+		}
+		a.frameCheckRef(a.cur, it.Comp, it.Ref, pos)
+		cur := vc.comp(h.mem, it.Comp, s)
+		elemSort := Sort(strings.TrimSuffix(strings.TrimPrefix(string(s), "(Array Int "), ")"))
+		fv := vc.declareHeap("hv_"+it.Comp, elemSort, a.alloc(h))
+		vc.setComp(h.mem, it.Comp, s, sto(cur, it.Ref, fv))
+	}
+	for _, inv := range spec.Invs {
+		vc.assume(h.reach, mkEnv(h).evalBool(inv.Expr))
+	}
+	// 3. one arbitrary Swap from that state keeps the invariants; Less/Swap are safe
+	if !a.dry {
+		save := a.cur
+		a.cur = h.clone()
+		n := a.inlineCall(instr, fLen, []Val{recv}, nil)
+		i := a.freshVal(types.Typ[types.Int], "sort_i", a.cur)
+		j := a.freshVal(types.Typ[types.Int], "sort_j", a.cur)
+		guard := vc.define("sort_rng", SortBool, and(a.cur.reach, app("<=", "0", i.Term), app("<", i.Term, n.Term), app("<=", "0", j.Term), app("<", j.Term, n.Term)))
+		a.cur = &State{mem: a.cur.mem, reach: guard}
+		base := a.cur.clone()
+		a.inlineCall(instr, fLess, []Val{recv, i, j}, nil)
+		a.cur = base.clone()
+		a.inlineCall(instr, fSwap, []Val{recv, i, j}, nil)
+		after := a.cur
+		for _, inv := range spec.Invs {
+			vc.oblige("sort", fmt.Sprintf("%s%s:%s:step", a.label, label, inv.Name), after.reach, mkEnv(after).evalBool(inv.Expr), inv.Src, pos)
+		}
+		a.cur = save
+	}
+	a.cur = h
+	return Val{}
+}
